@@ -4,6 +4,7 @@ from __future__ import annotations
 # to the author) that use the customization interfaces in ._customization.
 
 import builtins
+import dis
 import functools
 import gc
 import sys
@@ -374,11 +375,22 @@ def glue_builtins() -> None:
                 # its aclose() awaitable is being thrown into (a task
                 # cancelled during the generator's cleanup) keeps the flag.
                 return []
-            # If the frame is visibly executing right now (only an executing
-            # generator frame is linked to its caller), don't even look at
-            # ag_await: on CPython 3.12.0 and 3.12.1, reading it from an
-            # executing generator can return a garbage pointer and crash.
-            if frame.f_back is not None or agen.ag_await is None:
+            # If the frame is executing right now, don't even look at
+            # ag_await: on CPython 3.11 and up to 3.12.1, reading it from
+            # an executing generator can return a garbage pointer and crash.
+            # An executing generator frame is linked to its caller - if it
+            # has a Python caller at all; it has none when something written
+            # in C drives the generator. The other way to tell: a frame that
+            # is suspended is at a YIELD_VALUE instruction (3.11+).
+            executing = frame.f_back is not None
+            if not executing and sys.version_info >= (3, 11):
+                code = frame.f_code.co_code
+                lasti = frame.f_lasti
+                executing = not (
+                    0 <= lasti < len(code)
+                    and dis.opname[code[lasti]] == "YIELD_VALUE"
+                )
+            if executing or agen.ag_await is None:
                 return StackSlice(outer=frame)
         return (agen.ag_frame, agen.ag_await)
 
